@@ -343,6 +343,7 @@ structure EnumSt where
   et : IntTy := tInt
   max : Nat := 0
   min : Nat := 0
+  seen : Bool := false -- `enumconsts != NULL`: an enumerator has already been recorded
 deriving DecidableEq, Repr, Inhabited
 
 /-- first half of the body of `for (value = 0; tok.kind == TIDENT; ++value)`: the enumerator's
@@ -357,7 +358,8 @@ def enumPick (fixed : Bool) (s : EnumSt) (it : EnumItem) : Except Err (Nat × In
     else .ok (value, s.et)
   | .implicit =>
     let value := s.value
-    if (value == 0 && !s.et.signed) || (value == 9223372036854775808 && s.et.signed) then
+    -- `enumconsts && (value == 0 && !issigned || value == 1ull << 63 && issigned)`: `++value` wrapped
+    if s.seen && ((value == 0 && !s.et.signed) || (value == 9223372036854775808 && s.et.signed)) then
       .error .enumNoType
     else if !typehasint s.et value s.et.signed then
       if fixed then .error .enumInvalid else
@@ -366,12 +368,12 @@ def enumPick (fixed : Bool) (s : EnumSt) (it : EnumItem) : Except Err (Nat × In
       | none => .error .assertFail
     else .ok (value, s.et)
 
-/-- second half: `min`/`max` bookkeeping, and `++value` for the next iteration -/
+/-- second half: `enumconsts = d`, `min`/`max` bookkeeping, and `++value` for the next iteration -/
 def enumRecord (s : EnumSt) (value : Nat) (et : IntTy) : EnumSt :=
   let neg := et.signed && value ≥ 9223372036854775808
   let min := if neg && sub64 0 value > s.min then sub64 0 value else s.min
   let max := if !neg && value > s.max then value else s.max
-  ⟨u64 (value + 1), et, max, min⟩
+  ⟨u64 (value + 1), et, max, min, true⟩
 
 def enumStep (fixed : Bool) (s : EnumSt) (it : EnumItem) : Except Err EnumSt :=
   match enumPick fixed s it with
